@@ -20,13 +20,16 @@ package store
 // every candidate left out ranks no earlier than every candidate selected: the result equals a full sort cut to topSize.
 //@ func (*VoteTop).ranking
 //@   props C10
-//@   requires topSize >= 1 && wfCands(candidates) && len(candidates) <= 1<<30
+//@   requires topSize >= 1 && wfCands(candidates)
 //@   modifies elems(candidates)
 //@   ensures len(result) == min(topSize, len(candidates)) && wfCands(candidates)
 //@   ensures forall(a, 0, len(result), result[a] == candidates[a])
 //@   ensures #ord: forall(a, 1, len(result), before(candidates[a-1], candidates[a]))
 //@   ensures #ord: forall(a, 0, len(result), forall(b, len(result), len(candidates), before(candidates[a], candidates[b])))
 //@   ensures #perm: forall(a, 0, len(candidates), exists(b, 0, len(candidates), candidates[b] == old(candidates[a])))
+//@   ensures #from: forall(b, 0, len(candidates), exists(a, 0, len(candidates), candidates[b] == old(candidates[a])))
+//@   invariant @loop 0 #from: forall(b, 0, length, exists(a, 0, length, candidates[b] == old(candidates[a])))
+//@   invariant @loop 1 #from: forall(b, 0, length, exists(a, 0, length, candidates[b] == old(candidates[a])))
 //@   invariant @loop 0: 0 <= i && i <= minCnt && minCnt == min(topSize, length) && length == len(candidates) && length >= 2 && len(result) == minCnt && fresh(result) && wfCands(candidates)
 //@   invariant @loop 0: forall(a, 0, i, result[a] == candidates[a])
 //@   invariant @loop 0 #ord: forall(a, 1, i, before(candidates[a-1], candidates[a]))
@@ -69,10 +72,68 @@ package store
 // Rank: the published list is the given candidates fully sorted and cut to topSize
 //@ func (*VoteTop).Rank
 //@   props C10
-//@   requires top != nil && topSize >= 1 && wfCands(candidates) && len(candidates) <= 1<<30
+//@   requires top != nil && topSize >= 1 && wfCands(candidates)
 //@   modifies top.Top, elems(candidates)
 //@   ensures len(top.Top) == min(topSize, len(candidates)) && sortedTop(top.Top)
 //@   ensures forall(a, 0, len(top.Top), sameCand(top.Top[a], candidates[a]))
 //@   ensures forall(a, 0, len(top.Top), forall(b, len(top.Top), len(candidates), before(candidates[a], candidates[b])))
 //@   ensures forall(a, 0, len(candidates), exists(b, 0, len(candidates), candidates[b] == old(candidates[a])))
+//@   ensures forall(b, 0, len(candidates), exists(a, 0, len(candidates), candidates[b] == old(candidates[a])))
 //@   nopanic
+
+//@ func NewVoteTop
+//@   props C10
+//@   requires wfCands(top)
+//@   modifies nothing
+//@   ensures result != nil && fresh(result) && len(result.Top) == len(top) && fresh(result.Top) && wfCands(result.Top)
+//@   ensures forall(a, 0, len(top), sameCand(result.Top[a], top[a]))
+//@   invariant @loop 0: 0 <= index && index <= len(top) && voteTop != nil && fresh(voteTop) && len(voteTop.Top) == len(top) && fresh(voteTop.Top) && wfCands(top)
+//@   invariant @loop 0: forall(a, 0, index, voteTop.Top[a] != nil && voteTop.Top[a].Total != nil && sameCand(voteTop.Top[a], top[a]))
+//@   invariant @loop 0: frameElems(*Candidate)
+//@   nopanic
+
+// every entry of the merged list is one of the given candidates (with its new votes) or an entry of the old list; the list is
+// ranked and cut.  (That no input is dropped unless outranked is Rank's postcondition applied to the merged array; it is not
+// restated at this level.)
+//@ pred fromInputs(c *Candidate, oldTop []*Candidate, cs []*Candidate) = exists(j, 0, len(cs), sameCand(c, cs[j])) || exists(j, 0, len(oldTop), sameCand(c, oldTop[j]))
+//@ func (*VoteTop).MergeCandidates
+//@   props C10
+//@   requires top != nil && wfCands(top.Top) && wfCands(candidates) && len(top.Top) + len(candidates) <= 1<<29 && max_candidate_count >= 1
+//@   modifies top.Top
+//@   ensures len(candidates) == 0 ==> sameSlice(top.Top, old(top.Top))
+//@   ensures len(candidates) > 0 ==> sortedTop(top.Top) && len(top.Top) <= max_candidate_count
+//@   ensures len(candidates) > 0 ==> forall(i, 0, len(top.Top), fromInputs(top.Top[i], old(top.Top), candidates))
+//@   invariant @loop 0: 0 <= $k && $k <= $n && candidateMap != nil && fresh(candidateMap) && forallKeys(k, candidateMap, candidateMap[k] != nil && candidateMap[k].Total != nil && fromInputs(candidateMap[k], top.Top, candidates))
+//@   invariant @loop 0: frameElems(*Candidate) && sameSlice(top.Top, old(top.Top)) && len(candidateMap) <= $k
+//@   invariant @loop 1: 0 <= $k && $k <= $n && candidateMap != nil && fresh(candidateMap) && forallKeys(k, candidateMap, candidateMap[k] != nil && candidateMap[k].Total != nil && fromInputs(candidateMap[k], top.Top, candidates))
+//@   invariant @loop 1: frameElems(*Candidate) && sameSlice(top.Top, old(top.Top)) && len(candidateMap) <= len(top.Top) + $k
+//@   invariant @loop 2: candidateMap != nil && fresh(array) && wfCands(array) && forall(i, 0, len(array), fromInputs(array[i], top.Top, candidates))
+//@   invariant @loop 2: frameElems(*Candidate) && sameSlice(top.Top, old(top.Top)) && forallKeys(k, candidateMap, candidateMap[k] != nil && candidateMap[k].Total != nil && fromInputs(candidateMap[k], top.Top, candidates))
+//@   nopanic
+
+//@ func filterUnregisters
+//@   props C10
+//@   requires wfCands(candidates)
+//@   modifies nothing
+//@   ensures wfCands(result) && len(result) <= len(candidates)
+//@   ensures forall(i, 0, len(result), !has(unregisters, result[i].Address) && exists(j, 0, len(candidates), result[i] == candidates[j]))
+//@   invariant @loop 0: 0 <= $k && $k <= $n && fresh(newCandidates) && wfCands(newCandidates) && len(newCandidates) <= $k && wfCands(candidates) && len(unregisters) > 0
+//@   invariant @loop 0: forall(i, 0, len(newCandidates), !has(unregisters, newCandidates[i].Address) && exists(j, 0, $k, newCandidates[i] == candidates[j]))
+//@   invariant @loop 0: frameElems(*Candidate)
+//@   nopanic
+
+// the account and candidate tries (C09): assumed interfaces
+//@ func (*CBlock).collectUnregisters   trusted
+//@   modifies nothing
+//@   ensures result != nil
+//@ func (*CandidateTrieDB).GetAll   trusted
+//@   modifies nothing
+//@   ensures wfCands(result) && fresh(result)
+
+// updateTop: whichever branch is taken (merge, or full re-rank of the candidate trie) the published list is ranked, at most
+// max_candidate_count long and contains no candidate that unregistered in this block
+//@ func (*CBlock).updateTop
+//@   props C10
+//@   requires block != nil && block.Top != nil && block.CandidateTrieDB != nil && wfCands(block.Top.Top) && wfCands(changedCandidates) && max_candidate_count >= 1 && len(block.Top.Top) + len(changedCandidates) <= 1<<29
+//@   ensures block.Top != nil && wfCands(block.Top.Top)
+//@   ensures forall(i, 0, len(block.Top.Top), !has(unregisters, block.Top.Top[i].Address))
